@@ -17,6 +17,7 @@ import Proofs.Respects
 import Proofs.RangeOps
 import Proofs.Fitter
 import Proofs.FitterText
+import Proofs.ReplaceRange
 import Props.C01
 namespace PM.C11
 open PM
@@ -418,5 +419,336 @@ theorem deleteRange_fitted_text (S : Schema) (doc doc' : Node) (f t F T : Nat) (
       textUnits ((ftoks doc.kids).take f) ++ textUnits ((ftoks doc.kids).drop t) :=
   respects_delete_text S doc doc' f t F T sl' b
     (deleteRange_fitted_respects S doc f t _ hft h (fun _ _ _ _ _ _ _ he => by cases he)) ha
+
+/-! ## `replace_range` / `replace_range_with` as wholes (model PM/ReplaceRange.lean, tied exactly)
+
+`replaceRangeCalls S doc f t sl` is the sequence of `(from', to', slice')` requests that
+`Transform.replace_range(f, t, slice)` makes of the document: the arguments of its `self.replace`
+calls (one on the `delete_range` and on the targeted path, several in the fallback loop), or the
+`ReplaceStep(f, t, slice)` it records directly when the slice fits trivially. -/
+
+/-- the direct step of the `fits_trivially` path is the step `replace(f, t, slice)` would record:
+    listing it among the calls loses nothing -/
+theorem replaceRange_direct_is_replace (S : Schema) (doc : Node) (f t : Nat) (sl : Slice) (f' t' : Nat) (sl' : Slice)
+    (h : replaceRangePlan S doc f t sl = some (.direct f' t' sl')) :
+    f' = f ∧ t' = t ∧ sl' = sl ∧ replaceStep S doc f t sl = .ok (some (.replace f t sl false)) := by
+  unfold replaceRangePlan at h
+  split at h
+  · split at h <;> simp at h
+  · rename_i hsz
+    split at h
+    · rename_i rf rt hf ht
+      split at h
+      · simp at h
+      · rename_i hfit
+        simp only [Option.some.injEq, RRPlan.direct.injEq] at h
+        obtain ⟨rfl, rfl, rfl⟩ := h
+        refine ⟨rfl, rfl, rfl, ?_⟩
+        have hne : (f == t && sl.size == 0) = false := by
+          simp only [Bool.and_eq_false_iff]
+          exact .inr (by simpa using hsz)
+        simp [replaceStep, hne, hf, ht, hfit, pure, Except.pure]
+      · unfold replaceRangeR at h
+        split at h
+        · simp at h
+        · simp only at h
+          split at h
+          · simp at h
+          · split at h
+            · simp at h
+            · split at h
+              · simp at h
+              · simp at h
+              · obtain ⟨cs, _, hcs⟩ := Option.map_eq_some_iff.mp h
+                simp at hcs
+    · simp at h
+
+/-- **`replace_range` only widens the range over structure and only closes the slice**: for every
+    request `(f', t', slice')` it makes, `[f', t']` contains `[f, t]` and lies in the document, every
+    token added in front (`[f', f)`) is an open token, every token added behind (`[t, t')`) is a close
+    token — no text, no leaf; and `slice'` is either the empty slice (when the requested slice has
+    size 0: the `delete_range` path) or has exactly the requested content text (`close_fragment` only
+    inserts filler nodes: no text invented or dropped), the requested open end, an open start no
+    deeper than the requested one, and is well-formed if the requested slice is (`close_fragment`
+    puts no filler in front of a node that stays open at the start nor behind one that stays open at
+    the end: `closeFragment_keeps_start_spine`, `closeFragment_keeps_end_spine`) -/
+theorem replaceRange_extends_structurally (S : Schema) (doc : Node) (f t : Nat) (sl : Slice)
+    (cs : List (Nat × Nat × Slice)) (h : replaceRangeCalls S doc f t sl = some cs) :
+    ∀ c ∈ cs, c.1 ≤ f ∧ t ≤ c.2.1 ∧ c.2.1 ≤ fsize doc.kids ∧
+      (∀ i, c.1 ≤ i → i < f → ∃ ty a m, (ftoks doc.kids)[i]? = some (Tok.op ty a m)) ∧
+      (∀ i, t ≤ i → i < c.2.1 → (ftoks doc.kids)[i]? = some Tok.cl) ∧
+      ((sl.size = 0 ∧ c.2.2 = Slice.empty) ∨
+       (ftext c.2.2.content = ftext sl.content ∧ c.2.2.openStart ≤ sl.openStart ∧
+         c.2.2.openEnd = sl.openEnd ∧ (sl.wf = true → c.2.2.wf = true))) := by
+  obtain ⟨plan, hp, rfl⟩ := Option.map_eq_some_iff.mp h
+  unfold replaceRangePlan at hp
+  split at hp
+  · rename_i hsz
+    split at hp
+    · simp at hp
+    · rename_i a b htg
+      simp only [Option.some.injEq] at hp
+      subst hp
+      intro c hc
+      simp only [RRPlan.toCalls, List.mem_singleton] at hc
+      subst hc
+      obtain ⟨h1, h2, h3, h4, h5⟩ := deleteRange_extends_structurally S doc f t a b htg
+      exact ⟨h1, h2, h3, h4, h5, .inl ⟨by simpa using hsz, rfl⟩⟩
+  · split at hp
+    · rename_i rf rt hf ht
+      have Rf := resolve_resolved hf
+      have Rt := resolve_resolved ht
+      split at hp
+      · simp at hp
+      · simp only [Option.some.injEq] at hp
+        subst hp
+        intro c hc
+        simp only [RRPlan.toCalls, List.mem_singleton] at hc
+        subst hc
+        exact ⟨Nat.le_refl _, Nat.le_refl _, Rt.le, fun i h1 h2 => by omega,
+          fun i h1 h2 => by simp only at h2; omega, .inr ⟨rfl, Nat.le_refl _, rfl, id⟩⟩
+      · intro c hc
+        obtain ⟨hw, htx, hos, hoe, hwf'⟩ := replaceRangeR_calls S Rf Rt sl plan hp c hc
+        obtain ⟨h1, h2, h3, h4, h5⟩ := hw.structural S hf ht
+        exact ⟨h1, h2, h3, h4, h5, .inr ⟨htx, hos, hoe, hwf'⟩⟩
+    · simp at hp
+
+/-- … in the vocabulary of the monitor: the two windows by which a request's range grew are
+    structural, and what the request's slice offers as text is (in order) text of the requested slice -/
+theorem replaceRange_structuralOnly (S : Schema) (doc : Node) (f t : Nat) (sl : Slice)
+    (cs : List (Nat × Nat × Slice)) (hwf : sl.wf = true) (h : replaceRangeCalls S doc f t sl = some cs) :
+    ∀ c ∈ cs, structuralOnly (between (ftoks doc.kids) c.1 f) = true ∧
+      structuralOnly (between (ftoks doc.kids) t c.2.1) = true ∧
+      (ftext c.2.2.content).Sublist (textUnits (sliceToks' sl)) := by
+  intro c hc
+  obtain ⟨h1, h2, _, ho, hcl, htx⟩ := replaceRange_extends_structurally S doc f t sl cs h c hc
+  refine ⟨structuralOnly_between_of _ _ _ h1 fun i hi1 hi2 tk htk => ?_,
+    structuralOnly_between_of _ _ _ h2 fun i hi1 hi2 tk htk => ?_, ?_⟩
+  · obtain ⟨ty, a, m, e⟩ := ho i hi1 hi2
+    rw [e] at htk; cases htk; rfl
+  · rw [hcl i hi1 hi2] at htk; cases htk; rfl
+  · rcases htx with ⟨_, he⟩ | ⟨he, _, _, _⟩
+    · rw [he]; simp [Slice.empty]
+    · rw [he, sliceToks'_text_wf sl hwf]
+      exact List.Sublist.refl _
+
+/-- **`replace_range` asks for exactly the requested text**: every request's slice is well-formed
+    and offers the same text units, in the same order, as the requested slice -/
+theorem replaceRange_call_text (S : Schema) (doc : Node) (f t : Nat) (sl : Slice)
+    (cs : List (Nat × Nat × Slice)) (hwf : sl.wf = true) (h : replaceRangeCalls S doc f t sl = some cs) :
+    ∀ c ∈ cs, c.2.2.wf = true ∧ textUnits (sliceToks' c.2.2) = textUnits (sliceToks' sl) := by
+  intro c hc
+  obtain ⟨_, _, _, _, _, htx⟩ := replaceRange_extends_structurally S doc f t sl cs h c hc
+  rcases htx with ⟨hsz, he⟩ | ⟨he, _, _, hw⟩
+  · rw [he]
+    refine ⟨by decide, ?_⟩
+    have : fsize sl.content - sl.openStart - sl.openEnd = 0 := by
+      simp only [Slice.size] at hsz; omega
+    simp [sliceToks', this, Slice.empty]
+  · exact ⟨hw hwf, by rw [sliceToks'_text_wf _ (hw hwf), sliceToks'_text_wf sl hwf, he]⟩
+
+/-- the text half of `respects` without a well-formedness hypothesis on the slice handed to
+    `replace_step`: the emitted step's slice carries only text of the *content* of that slice, in
+    order (for a well-formed slice this is `fit_text`) -/
+theorem fit_text_content (S : Schema) (doc : Node) (f t : Nat) (sl : Slice) (st : Step)
+    (h : replaceStep S doc f t sl = .ok (some st)) :
+    ∃ sl', st.sliceOf = some sl' ∧ (textUnits (sliceToks' sl')).Sublist (ftext sl.content) := by
+  unfold replaceStep at h
+  split at h
+  · simp [pure, Except.pure] at h
+  · split at h
+    · rename_i rf rt hf ht
+      split at h
+      · simp [throw, throwThe, MonadExceptOf.throw] at h
+      · have := pure_ok h
+        simp only [Option.some.injEq] at this
+        subst this
+        exact ⟨sl, rfl, sliceToks'_text_sublist sl⟩
+      · obtain ⟨sl', hs, hsub⟩ := fitterFit_text S hf rt sl _ st h
+        exact ⟨sl', hs, (sliceToks'_text_sublist sl').trans hsub⟩
+    · simp [throw, throwThe, MonadExceptOf.throw] at h
+
+/-- **`replace_range` respects the original request** — for every request `(f', t', slice')` that
+    `replace_range(f, t, slice)` makes (`f ≤ t`, `slice` well-formed), whatever step `replace_step`
+    emits for it satisfies the C11 monitor for the request `(f, t, slice)` that `replace_range` was
+    given: unconditionally for a replace step, with the residual hypothesis of `fitter_respects`
+    (`htail`) for a replace-around step.  (The widening is structural —
+    `replaceRange_extends_structurally` —, the Fitter only extends over closing structure —
+    `fit_range` —, and neither `close_fragment` nor the Fitter invents text.) -/
+theorem replaceRange_respects (S : Schema) (doc : Node) (f t : Nat) (sl : Slice)
+    (cs : List (Nat × Nat × Slice)) (hft : f ≤ t) (hwf : sl.wf = true)
+    (h : replaceRangeCalls S doc f t sl = some cs)
+    (c : Nat × Nat × Slice) (hc : c ∈ cs) (st : Step)
+    (hst : replaceStep S doc c.1 c.2.1 c.2.2 = .ok (some st))
+    (htail : ∀ F T G1 G2 sl' ins b, st = .replaceAround F T G1 G2 sl' ins b →
+      noText ((sliceToks' sl').drop ins) = true) :
+    respects (ftoks doc.kids) f t sl st = true := by
+  obtain ⟨h1, h2, _⟩ := replaceRange_extends_structurally S doc f t sl cs h c hc
+  obtain ⟨s1, s2, htx⟩ := replaceRange_structuralOnly S doc f t sl cs hwf h c hc
+  have hr := fit_range_monitor S doc c.1 c.2.1 c.2.2 st (by omega) hst
+  obtain ⟨sl', hs, hsub⟩ := fit_text_content S doc c.1 c.2.1 c.2.2 st hst
+  have hsub' := hsub.trans htx
+  refine respects_of_widened _ f t c.1 c.2.1 sl st h1 hft h2 s1 s2 ?_
+  cases st with
+  | replace F T sl2 b =>
+    simp only [Step.sliceOf, Option.some.injEq] at hs
+    subst hs
+    simp only at hr
+    simp only [respects, Bool.and_eq_true, decide_eq_true_eq]
+    exact ⟨⟨⟨⟨⟨⟨hr.1, hr.2.1⟩, by omega⟩, hr.2.2.1⟩, hr.2.2.2.1⟩, hr.2.2.2.2⟩, isSubseq_of_sublist hsub'⟩
+  | replaceAround F T G1 G2 sl2 ins b =>
+    simp only [Step.sliceOf, Option.some.injEq] at hs
+    subst hs
+    simp only at hr
+    obtain ⟨r1, r2, r3, r4, r5, r6, r7, r8, r9⟩ := hr
+    simp only [respects, Bool.and_eq_true, decide_eq_true_eq]
+    refine ⟨⟨⟨⟨⟨⟨⟨⟨⟨⟨⟨r1, r2⟩, r3⟩, r4⟩, by omega⟩, r5⟩, r6⟩, r7⟩, r8⟩, r9⟩, htail _ _ _ _ _ _ _ rfl⟩, ?_⟩
+    exact isSubseq_of_sublist ((textUnits_sublist (List.take_sublist _ _)).trans hsub')
+  | _ => simp at hr
+
+/-- … hence **content preservation for `replace_range`, without a monitored hypothesis**: if the
+    step emitted for one of its requests is a replace step and applies, all text and leaf nodes
+    before `f` and after `t` are kept in order, with exactly the step's slice content between them,
+    whose text is an in-order subsequence of the requested slice's text -/
+theorem replaceRange_preserves (S : Schema) (doc doc' : Node) (f t : Nat) (sl : Slice)
+    (cs : List (Nat × Nat × Slice)) (hft : f ≤ t) (hwf : sl.wf = true)
+    (h : replaceRangeCalls S doc f t sl = some cs)
+    (c : Nat × Nat × Slice) (hc : c ∈ cs) (F T : Nat) (sl' : Slice) (b : Bool)
+    (hst : replaceStep S doc c.1 c.2.1 c.2.2 = .ok (some (.replace F T sl' b)))
+    (ha : S.apply (.replace F T sl' b) doc = .ok doc') :
+    (ftoks doc'.kids).filter Tok.isContent =
+      ((ftoks doc.kids).take f).filter Tok.isContent ++ (sliceToks' sl').filter Tok.isContent
+        ++ ((ftoks doc.kids).drop t).filter Tok.isContent ∧
+    isSubseq (textUnits (sliceToks' sl')) (textUnits (sliceToks' sl)) = true :=
+  respects_replace S doc doc' f t sl F T sl' b
+    (replaceRange_respects S doc f t sl cs hft hwf h c hc _ hst (fun _ _ _ _ _ _ _ he => by cases he)) ha
+
+/-- a request moved over structure: a step that respects the insertion request at `p` also respects
+    the insertion request at `f` when everything between `p` and `f` is structural (for a
+    replace-around step: provided its kept gap does not start before `f`) -/
+theorem respects_of_moved (toks : List Tok) (f p : Nat) (req : Slice) (st : Step)
+    (hs : structuralOnly (between toks p f) = true)
+    (hg : ∀ F T G1 G2 sl ins b, st = .replaceAround F T G1 G2 sl ins b → f ≤ G1)
+    (hm : respects toks p p req st = true) : respects toks f f req st = true := by
+  rw [structuralOnly_between_iff] at hs
+  cases st with
+  | replace F T sl b =>
+    simp only [respects, Bool.and_eq_true, decide_eq_true_eq] at hm ⊢
+    obtain ⟨⟨⟨⟨⟨⟨hFT, hT⟩, _⟩, a1⟩, a2⟩, _⟩, hsub⟩ := hm
+    rw [structuralOnly_between_iff] at a1 a2
+    refine ⟨⟨⟨⟨⟨⟨hFT, hT⟩, Nat.le_refl _⟩, ?_⟩, ?_⟩, by omega⟩, hsub⟩
+    · rw [structuralOnly_between_iff]
+      intro i hi1 hi2 tk htk
+      by_cases c : min F p ≤ i ∧ i < max F p
+      · exact a1 i c.1 c.2 tk htk
+      · exact hs i (by omega) (by omega) tk htk
+    · rw [structuralOnly_between_iff]
+      intro i hi1 hi2 tk htk
+      by_cases c : min p T ≤ i ∧ i < max p T
+      · exact a2 i c.1 c.2 tk htk
+      · exact hs i (by omega) (by omega) tk htk
+  | replaceAround F T G1 G2 sl ins b =>
+    have hfG := hg _ _ _ _ _ _ _ rfl
+    simp only [respects, Bool.and_eq_true, decide_eq_true_eq] at hm ⊢
+    obtain ⟨⟨⟨⟨⟨⟨⟨⟨⟨⟨⟨hFG, hGG⟩, hGT⟩, hT⟩, _⟩, htG⟩, a1⟩, a2⟩, a3⟩, _⟩, hn⟩, hsub⟩ := hm
+    rw [structuralOnly_between_iff] at a1 a2
+    refine ⟨⟨⟨⟨⟨⟨⟨⟨⟨⟨⟨hFG, hGG⟩, hGT⟩, hT⟩, Nat.le_refl _⟩, hfG⟩, ?_⟩, ?_⟩, a3⟩, by omega⟩, hn⟩, hsub⟩
+    · rw [structuralOnly_between_iff]
+      intro i hi1 hi2 tk htk
+      by_cases c : min F p ≤ i ∧ i < max F p
+      · exact a1 i c.1 c.2 tk htk
+      · exact hs i (by omega) (by omega) tk htk
+    · rw [structuralOnly_between_iff]
+      intro i hi1 hi2 tk htk
+      by_cases c : min p G1 ≤ i ∧ i < max p G1
+      · exact a2 i c.1 c.2 tk htk
+      · exact hs i (by omega) (by omega) tk htk
+  | _ => simp [respects] at hm
+
+/-- **`replace_range_with` respects the original request**: `replace_range_with(f, t, node)` is
+    `replace_range` at the pair `replace_range_with` passes on — `(f, t)`, or the insertion point
+    `insert_point` answered, which differs from `f = t` by open tokens only or by close tokens only
+    (`insertPoint_structural`).  So every step `replace_step` emits for one of its requests
+    satisfies the C11 monitor for the request `(f, t, <node>)`: unconditionally for a replace step;
+    for a replace-around step with the residual hypothesis of `fitter_respects` and — only when the
+    target was moved — a kept gap that does not start before the requested position. -/
+theorem replaceRangeWith_respects (S : Schema) (doc : Node) (f t : Nat) (node : Node)
+    (cs : List (Nat × Nat × Slice)) (hft : f ≤ t)
+    (h : replaceRangeWithCalls S doc f t node = some cs)
+    (c : Nat × Nat × Slice) (hc : c ∈ cs) (st : Step)
+    (hst : replaceStep S doc c.1 c.2.1 c.2.2 = .ok (some st))
+    (htail : ∀ F T G1 G2 sl' ins b, st = .replaceAround F T G1 G2 sl' ins b →
+      noText ((sliceToks' sl').drop ins) = true)
+    (hgap : ∀ F T G1 G2 sl' ins b, st = .replaceAround F T G1 G2 sl' ins b → t ≤ G1) :
+    respects (ftoks doc.kids) f t ⟨[node], 0, 0⟩ st = true := by
+  have hwf : (Slice.mk [node] 0 0).wf = true := by simp [Slice.wf]
+  unfold replaceRangeWithCalls replaceRangeWithPlan at h
+  split at h
+  · simp at h
+  · rename_i a b htg
+    have hcs : replaceRangeCalls S doc a b ⟨[node], 0, 0⟩ = some cs := h
+    unfold replaceRangeWithTarget at htg
+    have same : a = f ∧ b = t → respects (ftoks doc.kids) f t ⟨[node], 0, 0⟩ st = true := by
+      rintro ⟨rfl, rfl⟩
+      exact replaceRange_respects S doc a b _ cs hft hwf hcs c hc st hst htail
+    split at htg
+    · rename_i hcond
+      simp only [Bool.and_eq_true, Bool.not_eq_true', beq_iff_eq] at hcond
+      split at htg
+      · simp at htg
+      · rename_i r hr
+        split at htg
+        · split at htg
+          · simp at htg
+          · rename_i p hp
+            simp only [Option.some.injEq, Prod.mk.injEq] at htg
+            obtain ⟨rfl, rfl⟩ := htg
+            obtain ⟨_, rfl⟩ := hcond
+            have hip : insertPoint S doc f (S.tyOf node) = some (some p) := by simp [insertPoint, hr, hp]
+            have hm := replaceRange_respects S doc p p _ cs (Nat.le_refl _) hwf hcs c hc st hst htail
+            refine respects_of_moved _ f p _ st ?_ hgap hm
+            rw [structuralOnly_between_iff]
+            intro i hi1 hi2 tk htk
+            rcases insertPoint_structural S doc f _ p hip with ⟨hle, ho⟩ | ⟨hle, _, hcl⟩
+            · obtain ⟨ty, at_, m, e⟩ := ho i (by omega) (by omega)
+              rw [e] at htk; cases htk; rfl
+            · rw [hcl i (by omega) (by omega)] at htk; cases htk; rfl
+          · simp only [Option.some.injEq, Prod.mk.injEq] at htg
+            exact same ⟨htg.1.symm, htg.2.symm⟩
+        · simp only [Option.some.injEq, Prod.mk.injEq] at htg
+          exact same ⟨htg.1.symm, htg.2.symm⟩
+    · simp only [Option.some.injEq, Prod.mk.injEq] at htg
+      exact same ⟨htg.1.symm, htg.2.symm⟩
+
+/-- the hypotheses are satisfiable and the kinds of widening are real: in
+    `doc(bq(p("ab")), p("cd"))` (`doc`, `bq` content `(p | bq | h)+`; `h` defining),
+    * `replace_range(2, 4, <h("x")>)` — the whole text of the inner paragraph replaced by a heading —
+      is handed to `replace` as `(0, 6, …)`: widened to the block quote (a covered depth);
+    * `replace_range(2, 3, <h("x")>)` as `(0, 3, …)`: `from` moved in front of the open tokens of
+      `bq` and `p` (a `-d` target), `to` kept;
+    * `replace_range(3, 8, <h("x"), p("y")>(1,1))` as it is (`(3, 8)`, same slice);
+    * `replace_range(2, 4, Slice.empty)` goes through `delete_range`.
+    (With the open slice `<h("x")>(1,1)` the first two answers are the same ranges with the slice
+    closed to `(0,1)` by `close_fragment`; `fill_before` is defined by well-founded recursion, which
+    `decide` does not evaluate, so those instances are left to the correspondence run.) -/
+example :
+    let nt (name : String) (isText inl dfn : Bool) (dfa : Array DfaState) : NodeType :=
+      { name := name, isText := isText, isInline := isText, isLeaf := isText, isAtom := isText,
+        inlineContent := inl, isolating := false, defining := dfn, code := false,
+        dfa := dfa, markSet := none, attrs := [] }
+    let blocks : Array DfaState := #[⟨false, [(1, 1), (2, 1), (4, 1)]⟩, ⟨true, [(1, 1), (2, 1), (4, 1)]⟩]
+    let S : Schema := { nodes := #[nt "doc" false false false blocks,
+                                   nt "p" false true false #[⟨true, [(3, 0)]⟩],
+                                   nt "bq" false false false blocks,
+                                   nt "text" true false false #[⟨true, []⟩],
+                                   nt "h" false true true #[⟨true, [(3, 0)]⟩]],
+                        marks := #[], top := 0, textTy := 3 }
+    let p (s : List Nat) : Node := .elem 1 [] [] [.text s []]
+    let h (s : List Nat) : Node := .elem 4 [] [] [.text s []]
+    let doc := Node.elem 0 [] [] [.elem 2 [] [] [p [97, 98]], p [99, 100]]
+    replaceRangeCalls S doc 2 4 ⟨[h [120]], 0, 0⟩ = some [(0, 6, ⟨[h [120]], 0, 0⟩)] ∧
+    replaceRangeCalls S doc 2 3 ⟨[h [120]], 0, 0⟩ = some [(0, 3, ⟨[h [120]], 0, 0⟩)] ∧
+    replaceRangeCalls S doc 3 8 ⟨[h [120], p [121]], 1, 1⟩ = some [(3, 8, ⟨[h [120], p [121]], 1, 1⟩)] ∧
+    replaceRangeCalls S doc 2 4 Slice.empty = some [(2, 4, Slice.empty)] := by decide
 
 end PM.C11
